@@ -91,10 +91,16 @@ func PairCorpus() []*ConcScenario {
 	var out []*ConcScenario
 	for i := range ks {
 		for j := i; j < len(ks); j++ {
+			hooks := ks[i].name == "out-block" || ks[j].name == "out-block"
 			out = append(out, &ConcScenario{Name: "pair/" + ks[i].name + "+" + ks[j].name,
 				Tweak: func(a *ap.App) {
 					a.OnFollow = pub.OnFollowAutomaticallyAccept
 					a.PutDoc(Doc("Note", RNote, "attributedTo", Carol, "content", "cached copy"))
+					if hooks {
+						// with application hooks the Block callback is a scheduling point of its own: another
+						// request may run while a Block is inside it
+						a.Callbacks = ap.CBWrapped
+					}
 				},
 				Reqs: []*Scenario{ks[i].mk(0), ks[j].mk(1)}})
 		}
